@@ -270,13 +270,13 @@ fn search(oracle: &str, seed: u64) -> Outcome {
             }
             // ------------------------------------------------ C09
             "date_add_months" | "ts_add_months" => {
-                domain = "every date x month offsets {-40..=40 step varied, range limits}";
+                domain = "every date x month offsets {-40..=40 step varied, +-48/96/1200/4800, range limits}; every 29 February x every offset";
                 exhaustive = false;
-                let offs: Vec<i64> = vec![-2136000000, -119988, -40, -25, -24, -13, -12, -11, -2, -1, 0, 1, 2, 11, 12, 13, 23, 24, 25, 40, 119988, 2136000000];
+                let offs: Vec<i64> = vec![-2136000000, -119988, -4800, -1200, -96, -48, -40, -25, -24, -13, -12, -11, -2, -1, 0, 1, 2, 11, 12, 13, 23, 24, 25, 40, 48, 96, 1200, 4800, 119988, 2136000000];
                 for n in DMIN..=DMAX {
                     let (y, m, d) = civil_from_days(n);
                     for &k in &offs {
-                        if (n + k) % 3 != 0 && k.abs() > 2 && k.abs() < 100000 { continue; }
+                        if (n + k) % 3 != 0 && k.abs() > 2 && k.abs() < 100000 && !(m == 2 && d == 29) { continue; }
                         n_eval += 1;
                         let t = y * 12 + (m - 1) + k;
                         let (ny, nm) = (t.div_euclid(12), t.rem_euclid(12) + 1);
@@ -381,6 +381,143 @@ fn search(oracle: &str, seed: u64) -> Outcome {
                     let acc = (ts.year(), ts.month(), ts.day(), ts.hour(), ts.minute(), ts.date().map(|x| x.days() as i64));
                     let exp = (Some(c.0 as i32), Some(c.1 as i32), Some(c.2 as i32), Some((tod / 3_600_000_000) as i32), Some((tod / 60_000_000 % 60) as i32), Some(n));
                     if acc != exp { fail!(format!("Timestamp(usecs={}) accessors (year, month, day, hour, minute, date)", ts.usecs()), format!("{:?}", exp), format!("{:?}", acc)); }
+                }}
+                None
+            }
+            "and_hms" => {
+                domain = "Date::and_hms validity grid (h 0/23/24, mi 0/59/60, s 0/59/60, us 0/999999/1000000/u32::MAX) on the first, epoch and last date";
+                exhaustive = false;
+                for n in [DMIN, -1, 0, DMAX] { for h in [0u32, 23, 24, u32::MAX] { for mi in [0u32, 59, 60] { for sc in [0u32, 59, 60] { for us in [0u32, 999_999, 1_000_000, u32::MAX] {
+                    n_eval += 1;
+                    let ok = h < 24 && mi < 60 && sc < 60 && us < 1_000_000;
+                    let exp = if ok { format!("Ok(usecs={})", n * DAY + h as i64 * 3_600_000_000 + mi as i64 * 60_000_000 + sc as i64 * 1_000_000 + us as i64) } else { "Err(..)".to_string() };
+                    let act = match date(n).and_hms(h, mi, sc, us) { Ok(v) => format!("Ok(usecs={})", v.usecs()), Err(_) => "Err(..)".to_string() };
+                    if act != exp { fail!(format!("Date(days={}).and_hms({}, {}, {}, {})", n, h, mi, sc, us), exp, act); }
+                }}}}}
+                for v in [TSMIN, TSMIN + 1, -DAY - 1, -DAY, -DAY + 1, -1, 0, 1, DAY - 1, TSMAX] { for off in [0i64, 73_060_000_000 - DAY] {
+                    let u = v + off; if u < TSMIN || u > TSMAX { continue; }
+                    n_eval += 1;
+                    let t = Time::from(Timestamp::try_from_usecs(u).unwrap());
+                    if t.usecs() != u.rem_euclid(DAY) { fail!(format!("Time::from(Timestamp(usecs={}))", u), format!("{}", u.rem_euclid(DAY)), format!("{}", t.usecs())); }
+                }}
+                None
+            }
+            // ------------------------------------------------ C08: exact linear arithmetic at the range ends
+            "linear_arith" => {
+                domain = "timestamps / dates / intervals at the range ends, around zero and mid-range: every add/sub method against 128-bit integer arithmetic";
+                exhaustive = false;
+                let tss: Vec<i64> = vec![TSMIN, TSMIN + 1, TSMIN + DAY - 1, TSMIN + DAY, -DAY, -1, 0, 1, DAY, TSMAX - DAY, TSMAX - DAY + 1, TSMAX - 1, TSMAX];
+                let tods: Vec<i64> = vec![0, 1, 43_200_000_000, DAY - 1];
+                let ts_res = |e: i128| if e >= TSMIN as i128 && e <= TSMAX as i128 { format!("Ok(usecs={})", e) } else { "Err(..)".to_string() };
+                let show_ts = |r: Result<Timestamp, sqldatetime::Error>| match r { Ok(v) => format!("Ok(usecs={})", v.usecs()), Err(_) => "Err(..)".to_string() };
+                for &a in &tss { for &t in &tods {
+                    n_eval += 2;
+                    let ts = Timestamp::try_from_usecs(a).unwrap(); let tm = Time::try_from_usecs(t).unwrap();
+                    let (e, act) = (ts_res(a as i128 + t as i128), show_ts(ts.add_time(tm)));
+                    if e != act { fail!(format!("Timestamp(usecs={}).add_time(usecs={})", a, t), e, act); }
+                    let (e, act) = (ts_res(a as i128 - t as i128), show_ts(ts.sub_time(tm)));
+                    if e != act { fail!(format!("Timestamp(usecs={}).sub_time(usecs={})", a, t), e, act); }
+                    if a.rem_euclid(DAY) == 0 {
+                        n_eval += 2;
+                        let d = date(a.div_euclid(DAY));
+                        let act = format!("Ok(usecs={})", d.add_time(tm).usecs());
+                        if ts_res(a as i128 + t as i128) != act { fail!(format!("Date(days={}).add_time(usecs={})", d.days(), t), ts_res(a as i128 + t as i128), act); }
+                        let (e, act) = (ts_res(a as i128 - t as i128), show_ts(d.sub_time(tm)));
+                        if e != act { fail!(format!("Date(days={}).sub_time(usecs={})", d.days(), t), e, act); }
+                    }
+                }}
+                let lim: i128 = 8_640_000_000_000_000_000;
+                let ivs: Vec<i64> = vec![-(lim as i64), -(lim as i64) + 1, -5_184_000_000_000_000_000, -DAY, -1, 0, 1, DAY, 5_184_000_000_000_000_000, lim as i64 - 1, lim as i64];
+                let iv_res = |e: i128| if e >= -lim && e <= lim { format!("Ok(usecs={})", e) } else { "Err(..)".to_string() };
+                let show_iv = |r: Result<IntervalDT, sqldatetime::Error>| match r { Ok(v) => format!("Ok(usecs={})", v.usecs()), Err(_) => "Err(..)".to_string() };
+                for &a in &ivs { for &b in &ivs {
+                    n_eval += 2;
+                    let (x, y) = (IntervalDT::try_from_usecs(a).unwrap(), IntervalDT::try_from_usecs(b).unwrap());
+                    let rr = catch_unwind(AssertUnwindSafe(|| (show_iv(x.add_interval_dt(y)), show_iv(x.sub_interval_dt(y)))));
+                    let (ra, rs) = match rr { Ok(v) => v, Err(_) => ("panic".to_string(), "panic".to_string()) };
+                    if iv_res(a as i128 + b as i128) != ra { fail!(format!("IntervalDT(usecs={}).add_interval_dt(usecs={})", a, b), iv_res(a as i128 + b as i128), ra); }
+                    if iv_res(a as i128 - b as i128) != rs { fail!(format!("IntervalDT(usecs={}).sub_interval_dt(usecs={})", a, b), iv_res(a as i128 - b as i128), rs); }
+                }}
+                for &a in &tss { for &b in &ivs {
+                    n_eval += 2;
+                    let (ts, y) = (Timestamp::try_from_usecs(a).unwrap(), IntervalDT::try_from_usecs(b).unwrap());
+                    let rr = catch_unwind(AssertUnwindSafe(|| (show_ts(ts.add_interval_dt(y)), show_ts(ts.sub_interval_dt(y)))));
+                    let (ra, rs) = match rr { Ok(v) => v, Err(_) => ("panic".to_string(), "panic".to_string()) };
+                    if ts_res(a as i128 + b as i128) != ra { fail!(format!("Timestamp(usecs={}).add_interval_dt(usecs={})", a, b), ts_res(a as i128 + b as i128), ra); }
+                    if ts_res(a as i128 - b as i128) != rs { fail!(format!("Timestamp(usecs={}).sub_interval_dt(usecs={})", a, b), ts_res(a as i128 - b as i128), rs); }
+                }}
+                for &a in &tss { for &b in &tss {
+                    n_eval += 1;
+                    let (x, y) = (Timestamp::try_from_usecs(a).unwrap(), Timestamp::try_from_usecs(b).unwrap());
+                    let act = x.sub_timestamp(y).usecs();
+                    if act as i128 != a as i128 - b as i128 { fail!(format!("Timestamp(usecs={}).sub_timestamp(usecs={})", a, b), format!("{}", a as i128 - b as i128), format!("{}", act)); }
+                    if b.rem_euclid(DAY) == 0 {
+                        let act = x.sub_date(date(b.div_euclid(DAY))).usecs();
+                        if act as i128 != a as i128 - b as i128 { fail!(format!("Timestamp(usecs={}).sub_date(days={})", a, b.div_euclid(DAY)), format!("{}", a as i128 - b as i128), format!("{}", act)); }
+                    }
+                    if a.rem_euclid(DAY) == 0 {
+                        let act = date(a.div_euclid(DAY)).sub_timestamp(y).usecs();
+                        if act as i128 != a as i128 - b as i128 { fail!(format!("Date(days={}).sub_timestamp(usecs={})", a.div_euclid(DAY), b), format!("{}", a as i128 - b as i128), format!("{}", act)); }
+                    }
+                }}
+                let mlim: i128 = 2_136_000_000;
+                let yms: Vec<i32> = vec![-2_136_000_000, -2_135_999_999, -1_200_000_000, -12, -1, 0, 1, 12, 1_200_000_000, 2_135_999_999, 2_136_000_000];
+                let ym_res = |e: i128| if e >= -mlim && e <= mlim { format!("Ok(months={})", e) } else { "Err(..)".to_string() };
+                let show_ym = |r: Result<IntervalYM, sqldatetime::Error>| match r { Ok(v) => format!("Ok(months={})", v.months()), Err(_) => "Err(..)".to_string() };
+                for &a in &yms { for &b in &yms {
+                    n_eval += 2;
+                    let (x, y) = (IntervalYM::try_from_months(a).unwrap(), IntervalYM::try_from_months(b).unwrap());
+                    let rr = catch_unwind(AssertUnwindSafe(|| (show_ym(x.add_interval_ym(y)), show_ym(x.sub_interval_ym(y)))));
+                    let (ra, rs) = match rr { Ok(v) => v, Err(_) => ("panic".to_string(), "panic".to_string()) };
+                    if ym_res(a as i128 + b as i128) != ra { fail!(format!("IntervalYM(months={}).add_interval_ym(months={})", a, b), ym_res(a as i128 + b as i128), ra); }
+                    if ym_res(a as i128 - b as i128) != rs { fail!(format!("IntervalYM(months={}).sub_interval_ym(months={})", a, b), ym_res(a as i128 - b as i128), rs); }
+                }}
+                None
+            }
+            // ------------------------------------------------ C12 / C17: mixed-type comparisons, both operand orders
+            "mixed_cmp" => {
+                domain = "Time x IntervalDT, Date x Timestamp (and the Oracle-style date when built with it) at equal / adjacent / sign-flipped / pre-1970 values: == and partial_cmp in both operand orders against integer comparison";
+                exhaustive = false;
+                let tods: Vec<i64> = vec![0, 1, 3_600_000_000, 43_200_000_000, DAY - 1];
+                let ivs: Vec<i64> = vec![-DAY - 1, -7_200_000_000, -1, 0, 1, 3_600_000_000, 43_200_000_000, DAY - 1, DAY, DAY + 1, 8_640_000_000_000_000_000, -8_640_000_000_000_000_000];
+                for &t in &tods { for &i in &ivs {
+                    n_eval += 4;
+                    let (tm, iv) = (Time::try_from_usecs(t).unwrap(), IntervalDT::try_from_usecs(i).unwrap());
+                    if (tm == iv) != (t == i) { fail!(format!("Time(usecs={}) == IntervalDT(usecs={})", t, i), format!("{}", t == i), format!("{}", tm == iv)); }
+                    if (iv == tm) != (t == i) { fail!(format!("IntervalDT(usecs={}) == Time(usecs={})", i, t), format!("{}", t == i), format!("{}", iv == tm)); }
+                    if tm.partial_cmp(&iv) != Some(t.cmp(&i)) { fail!(format!("Time(usecs={}).partial_cmp(IntervalDT(usecs={}))", t, i), format!("{:?}", Some(t.cmp(&i))), format!("{:?}", tm.partial_cmp(&iv))); }
+                    if iv.partial_cmp(&tm) != Some(i.cmp(&t)) { fail!(format!("IntervalDT(usecs={}).partial_cmp(Time(usecs={}))", i, t), format!("{:?}", Some(i.cmp(&t))), format!("{:?}", iv.partial_cmp(&tm))); }
+                }}
+                let tsv: Vec<i64> = vec![TSMIN, TSMIN + 1, TSMIN + DAY, -2 * DAY + 43_200_000_000, -DAY, -DAY + 1, -1, 0, 1, 500_000, 1_000_000, DAY - 1, DAY, 1_623_760_230_500_000, TSMAX - DAY + 1, TSMAX];
+                let dsv: Vec<i64> = vec![DMIN, DMIN + 1, -2, -1, 0, 1, 18793, DMAX];
+                for &a in &tsv { for &n in &dsv {
+                    n_eval += 4;
+                    let (ts, d) = (Timestamp::try_from_usecs(a).unwrap(), date(n));
+                    let b = n * DAY;
+                    if (ts == d) != (a == b) { fail!(format!("Timestamp(usecs={}) == Date(days={})", a, n), format!("{}", a == b), format!("{}", ts == d)); }
+                    if (d == ts) != (a == b) { fail!(format!("Date(days={}) == Timestamp(usecs={})", n, a), format!("{}", a == b), format!("{}", d == ts)); }
+                    if ts.partial_cmp(&d) != Some(a.cmp(&b)) { fail!(format!("Timestamp(usecs={}).partial_cmp(Date(days={}))", a, n), format!("{:?}", Some(a.cmp(&b))), format!("{:?}", ts.partial_cmp(&d))); }
+                    if d.partial_cmp(&ts) != Some(b.cmp(&a)) { fail!(format!("Date(days={}).partial_cmp(Timestamp(usecs={}))", n, a), format!("{:?}", Some(b.cmp(&a))), format!("{:?}", d.partial_cmp(&ts))); }
+                }}
+                // Oracle-style date (whole seconds) against Timestamp and Date
+                for &a in &tsv { for &o in &tsv {
+                    let os = o.div_euclid(1_000_000) * 1_000_000;
+                    n_eval += 4;
+                    let (ts, od) = (Timestamp::try_from_usecs(a).unwrap(), OracleDate::try_from_usecs(os).unwrap());
+                    if (ts == od) != (a == os) { fail!(format!("Timestamp(usecs={}) == OracleDate(usecs={})", a, os), format!("{}", a == os), format!("{}", ts == od)); }
+                    if (od == ts) != (a == os) { fail!(format!("OracleDate(usecs={}) == Timestamp(usecs={})", os, a), format!("{}", a == os), format!("{}", od == ts)); }
+                    if ts.partial_cmp(&od) != Some(a.cmp(&os)) { fail!(format!("Timestamp(usecs={}).partial_cmp(OracleDate(usecs={}))", a, os), format!("{:?}", Some(a.cmp(&os))), format!("{:?}", ts.partial_cmp(&od))); }
+                    if od.partial_cmp(&ts) != Some(os.cmp(&a)) { fail!(format!("OracleDate(usecs={}).partial_cmp(Timestamp(usecs={}))", os, a), format!("{:?}", Some(os.cmp(&a))), format!("{:?}", od.partial_cmp(&ts))); }
+                }}
+                for &n in &dsv { for &o in &tsv {
+                    let os = o.div_euclid(1_000_000) * 1_000_000;
+                    let b = n * DAY;
+                    n_eval += 4;
+                    let (d, od) = (date(n), OracleDate::try_from_usecs(os).unwrap());
+                    if (d == od) != (b == os) { fail!(format!("Date(days={}) == OracleDate(usecs={})", n, os), format!("{}", b == os), format!("{}", d == od)); }
+                    if (od == d) != (b == os) { fail!(format!("OracleDate(usecs={}) == Date(days={})", os, n), format!("{}", b == os), format!("{}", od == d)); }
+                    if d.partial_cmp(&od) != Some(b.cmp(&os)) { fail!(format!("Date(days={}).partial_cmp(OracleDate(usecs={}))", n, os), format!("{:?}", Some(b.cmp(&os))), format!("{:?}", d.partial_cmp(&od))); }
+                    if od.partial_cmp(&d) != Some(os.cmp(&b)) { fail!(format!("OracleDate(usecs={}).partial_cmp(Date(days={}))", os, n), format!("{:?}", Some(os.cmp(&b))), format!("{:?}", od.partial_cmp(&d))); }
                 }}
                 None
             }
@@ -641,7 +778,7 @@ fn esc(s: &str) -> String { s.replace('\\', "\\\\").replace('"', "\\\"") }
 fn main() {
     let args: Vec<String> = std::env::args().collect();
     if args.len() >= 2 && args[1] == "list" {
-        println!("date_extract date_from_ymd date_from_days date_add_sub_days date_day_of_week date_add_months ts_add_months last_day_of_month date_trunc date_round ts_trunc ts_round od_trunc od_round ts_split time_tuple time_add_interval interval_ctor od_from_timestamp od_add_days ts_add_days naive_carry parse_grid format_grid");
+        println!("date_extract date_from_ymd date_from_days date_add_sub_days date_day_of_week date_add_months ts_add_months last_day_of_month date_trunc date_round ts_trunc ts_round od_trunc od_round ts_split time_tuple time_add_interval interval_ctor od_from_timestamp od_add_days ts_add_days naive_carry parse_grid format_grid and_hms linear_arith mixed_cmp");
         return;
     }
     if args.len() >= 3 && args[1] == "search" {
